@@ -236,3 +236,44 @@ def _(p):
                 if not numpy.allclose(two[:, j], 0):
                     return f"lost-level-column-not-zero: {p['formula']!r}: column {lab!r} = {two[:, j].tolist()} although its level is absent"
     return None
+
+
+# ------------------------------------------------------------------------------------------------ C06 / C07
+
+
+@replay("c06_config")
+def _(p):
+    from . import na_common as na
+
+    cfg = p["cfg"]
+    tag = [100.0 + 3 * k for k in range(cfg["n"])]
+    problems, claims = na.check_config(cfg, tag, lambda cell, k: abs(float(cell) - tag[k]) < 1e-12)
+    for label, ok in claims:
+        if not ok:
+            problems.append(("wrong-rows", f"{label}: it holds another row's value"))
+    for tg, msg in problems:
+        if p.get("tag") in (None, tg):
+            return f"{tg}: {cfg['formula']!r} na_action={cfg['na_action']} nulls z={cfg['z_nulls']} w={cfg['w_nulls']} A={cfg['a_nulls']} caller={cfg['caller']}: {msg}"
+    return None
+
+
+@replay("c07_config")
+def _(p):
+    from . import c07_common as cc
+
+    cfg = p["cfg"]
+    vals = p.get("values") or {"t": [100.0 + 3 * k for k in range(cc.N)], "a": [0.5, 2.0, 3.25, 7.0], "b": [4.0, 1.5, 6.0, 2.5]}
+    tag = vals["t"]
+
+    def same(u, v):
+        u, v = float(u), float(v)
+        return (numpy.isnan(u) and numpy.isnan(v)) or abs(u - v) <= 1e-9 * max(1.0, abs(u))
+
+    problems, claims = cc.check_config(cfg, vals, same=same, tag_eq=lambda cell, k: abs(float(cell) - tag[k]) < 1e-12, symbolic=False)
+    for label, ok in claims:
+        if not ok:
+            problems.append(("cells-differ", label))
+    for tg, msg in problems:
+        if p.get("tag") in (None, tg):
+            return f"{tg}: spec {cc.SPECS[cfg['spec_id']][1]!r} nulls z={cc.NULL_SETS[cfg['z']]} w={cc.NULL_SETS[cfg['w']]} A={cc.NULL_SETS[cfg['A']]} index={cfg['index']} output={cfg['output']}: {msg}"
+    return None
